@@ -423,13 +423,42 @@ func (e *vsEnv) settle(attempts []*vsAttempt, faultsOn bool) {
 				}
 			}
 			collides := false
-			for _, f := range a.files {
+			unstorable := -1 // first file the server rejects while reading it (over-long line, no benchmark lines)
+			for i, f := range a.files {
 				if _, c := vsParseFile(f.text, map[string]string{"upload": "", "upload-part": "", "upload-time": "", "upload-file": "", "by": ""}); c {
-					collides = true // a file label equal to a name-derived label cannot be stored: a legitimate failure
+					collides = true // a file label equal to a name-derived label cannot be stored: a legitimate failure (detected when the batch of inserts is flushed, possibly only at commit)
+				}
+				if vsHasLongLine(f.text) {
+					collides = true // a line longer than the reader's line buffer: rejecting the upload is legitimate
+					r.Hit("upload with an over-long line rejected")
+					if unstorable < 0 {
+						unstorable = i
+					}
 				}
 			}
 			if collides {
-				r.Hit("upload rejected because a file label collides with a name label")
+				r.Hit("upload rejected because a file label collides with a name label or a line is too long")
+			}
+			// the file whose content made the upload fail was being written when the failure was detected: it must be gone
+			if a.fault.Kind == "nobench" {
+				if k := a.fault.File % len(a.files); unstorable < 0 || k < unstorable {
+					unstorable = k
+				}
+			}
+			if (a.fault.Kind == "" || a.fault.Kind == "nobench") && unstorable >= 0 && !a.extended {
+				for _, f := range created {
+					if !strings.HasSuffix(f.name, fmt.Sprintf("/%d.txt", unstorable)) {
+						continue
+					}
+					vis := f.visible
+					if e.fs.inner != nil {
+						_, vis = onDisk[f.name]
+					}
+					if vis {
+						r.Fail("all-or-nothing", "rejected-file-left-in-store", "%s: upload failed (%d %q) because file %d cannot be accepted, but %s is still stored (%d bytes)", a.client, a.status, clipS(a.body), unstorable, f.name, len(f.buf))
+					}
+					r.Hit("file store examined for the file that made an upload fail")
+				}
 			}
 			if a.fault.Kind == "" && !faultsOn && e.lane == "seq" && !collides {
 				r.Fail("liveness", "well-formed-upload-fails", "%s: a well-formed upload without faults or concurrency failed: %d %q", a.client, a.status, clipS(a.body))
@@ -750,6 +779,9 @@ func (e *vsEnv) genAttempt(faultsOn bool, force *vsFault) *vsAttempt {
 	if T.Intn(40, "collide") == 0 {
 		opts.collide = true
 	}
+	if force == nil && T.Intn(40, "long-line") == 0 {
+		opts.longLine = true
+	}
 	if T.Intn(25, "wide-record") == 0 {
 		opts.wide = true
 		e.r.Hit("record with more labels than one insert batch holds")
@@ -1004,7 +1036,7 @@ func (c *vsCensus) fromRun(e *vsEnv, a *vsAttempt) {
 
 func vsRunLane(t *testing.T, r *sim.Run, lane string, faultsOn bool, force *vsFault, census *vsCensus) {
 	r.Lane = lane
-	r.Bubble(t, 200000, func(s *sim.Sched) {
+	r.Bubble(t, 2000000, func(s *sim.Sched) { // an upload with a 70 kB line takes tens of thousands of steps
 		s.Go("driver", 0, func() { vsScenario(t, r, s, lane, faultsOn, force, census) })
 		s.Loop()
 	})
